@@ -599,9 +599,9 @@ theorem confKey_den (ct : ClassTable) : ∀ (es : List (KeyKind × Spec × Spec)
               | other => (.stop other, kr.2 ++ (denote ct vs val).2))
            | .reject _ => ((denKey ct es (i + 1) key val).1, kr.2 ++ (denKey ct es (i + 1) key val).2)
            | .fault c => (.stop (.fault c), kr.2)).1 ∨
-        confKey ct kind ks key ≠ b := by
+        keyTest (conforms ct ks) kind ks key ≠ b := by
       intro kr b hb
-      by_cases hkb : confKey ct kind ks key = b
+      by_cases hkb : keyTest (conforms ct ks) kind ks key = b
       · left
         cases hkr : kr.1 with
         | pass k' =>
@@ -636,12 +636,12 @@ theorem confKey_den (ct : ClassTable) : ∀ (es : List (KeyKind × Spec × Spec)
       rcases hkey (vcond (pyEq key k) key) (pyEq key k)
         (by intro _; cases pyEq key k <;> simp [vcond, vpass, vreject, isPass]) with h | h
       · exact h
-      · rw [confKey, ho] at h; exact absurd rfl h
+      · rw [keyTest, ho] at h; exact absurd rfl h
     | none =>
       simp only
       rcases hkey (denote ct ks key) (conforms ct ks key) (conf_den ct ks key hc1 hd1) with h | h
       · exact h
-      · rw [confKey, ho] at h; exact absurd rfl h
+      · rw [keyTest, ho] at h; exact absurd rfl h
 end
 
 /-! ### "returns them unchanged" -/
